@@ -450,6 +450,29 @@ func execStep(env *Env, st *Step) Result {
 			return errResult(err)
 		}
 		return fontResult(f, false)
+	case "fontinfo":
+		// what a caller can read off the shared loaded font: must not depend on what was rendered
+		// with it before
+		f := env.Font(st.Font)
+		h := newHasher()
+		h.u64(uint64(f.NumGlyphs()))
+		h.u64(uint64(f.Head.UnitsPerEm))
+		h.u64(uint64(uint16(f.Head.IndexToLocFormat)))
+		h.u64(uint64(f.Hhea.NumberOfHMetrics))
+		if f.OS2 != nil {
+			h.u64(uint64(f.OS2.UlUnicodeRange1))
+			h.u64(uint64(f.OS2.UlUnicodeRange2))
+			h.u64(uint64(f.OS2.UlUnicodeRange3))
+			h.u64(uint64(f.OS2.UlUnicodeRange4))
+		}
+		h.u64(uint64(f.GlyphIndex('A')))
+		h.u64(uint64(f.GlyphAdvance(f.GlyphIndex('W'))))
+		face := f.Face(10, color.Black)
+		m := face.Metrics()
+		h.f64(m.Ascent)
+		h.f64(m.XHeight)
+		h.f64(face.TextWidth("info"))
+		return Result{Kind: "font", Hash: h.h, Brief: fmt.Sprintf("shared font %d: glyphs=%d locaFormat=%d hMetrics=%d", st.Font, f.NumGlyphs(), f.Head.IndexToLocFormat, f.Hhea.NumberOfHMetrics)}
 	case "loadmissing":
 		// error path: a font file that does not exist (the same name for all tasks)
 		fam := canvas.NewFontFamily("fam")
